@@ -169,9 +169,12 @@ async def check_package_failure_path(ctx, case):
     key = case["key"]
     first = await resolve({key: bad})
     ctx.evaluation()
-    if first[0] == "ok" or not isinstance(first[1], SyntaxError):
-        ctx.violation("malformed-package-expression-not-rejected" if first[0] == "ok" else f"resolver-raises-{type(first[1]).__name__}", f"resolver({s!r}) with package {key} = {bad!r} (malformed) {describe(first)[:200]}; expected SyntaxError")
+    if first[0] == "ok":
+        # a malformed package expression must not be accepted silently (which exception type reports a broken package TABLE - as opposed to a
+        # broken input string - is not fixed by the property: SyntaxError today; only counted)
+        ctx.violation("malformed-package-expression-not-rejected", f"resolver({s!r}) with package {key} = {bad!r} (malformed) {describe(first)[:200]}; expected an error")
         return
+    ctx.count("malformed_package_reported_as:" + type(first[1]).__name__)
     for what, out in (("with the repaired package table", await resolve({key: good})), ("without package resolution", await resolve({}, resolve_packages=False))):
         ctx.evaluation()
         if out[0] != "ok":
